@@ -2,7 +2,7 @@
 # bin/try_mutant.sh <patch.diff> <property> [extra args]: run a check against a scratch copy of /repo with the patch applied
 patch="$1"; prop="$2"; shift 2
 scr=$(mktemp -d /tmp/scr.XXXXXX)
-cp -r /repo/btclib "$scr/" && (cd "$scr" && git init -q . 2>/dev/null; patch -p1 -s < "$patch") || { echo "patch failed"; rm -rf "$scr"; exit 9; }
+cp -r /repo/btclib /repo/tests "$scr/" && (cd "$scr" && git init -q . 2>/dev/null; patch -p1 -s < "$patch") || { echo "patch failed"; rm -rf "$scr"; exit 9; }
 PYVC_REPO="$scr" /verif/bin/check "$prop" "$@"; rc=$?
 rm -rf "$scr"
 echo "exit=$rc"
